@@ -25,13 +25,13 @@ LEVEL_TEXT = ("c02_parse_render: for every sequence of commands within the proto
               "value, cas tokens are digit strings.")
 LEVEL_NOTE = ("Trusted: Coq kernel; the hand model's correspondence with base.py (differential run incl. the bytes of every sendall); "
               "Spec/Proto.v as the reading of protocol.txt (cross-checked against harness/refserver.py on generated and mutated "
-              "streams). raw_command and stats arguments are the caller's own protocol text: outside C02. No axioms.")
+              "streams). raw_command's argument is the caller's own protocol text: outside C02; stats / cache_memlimit words are compared verbatim on the implementation. No axioms.")
 TRUSTED = ["Coq 8.16.1 kernel; no axioms",
            "coq/Spec/Proto.v (strict grammar, written from protocol.txt) and its Python twin harness/refserver.py",
            "hand-written model coq/Model/Client.v tied to pymemcache/client/base.py by this check's correspondence run",
            "extraction: ExtrOcamlBasic only; coq/Extract/ocaml/driver.ml"]
 ASSUMPTIONS = ["integer arguments within the protocol's ranges (the property's quantifier); out-of-range integers are sent as given",
-               "raw_command / stats pass caller-supplied protocol text through by design"]
+               "raw_command passes caller-supplied protocol text through by design; the words of stats / cache_memlimit must reach the server as given (checked like keys, never prefixed)"]
 
 WS = b" \t\n\r\x0b\x0c\x00"
 
@@ -134,6 +134,16 @@ def intent(cfg, op):
     if code == 14:
         d = as_int(op[1], 0, float('inf'))
         return None if d is None else [("flush_all", d, nr(op[2]))]
+    if code in (18, 23):
+        # stats <args> / cache_memlimit <n>: the caller's own words, checked like keys but NEVER prefixed.  The strict reference
+        # server does not implement them: it records the line it read, verbatim
+        if code == 23:
+            n = as_int(op[1], *I64)
+            return None if n is None else [("bad", b"cache_memlimit " + str(n).encode())]
+        ws = [wire_key(dict(cfg, prefix=b""), a) for a in op[1]]
+        return None if None in ws else [("bad", b" ".join([b"stats"] + ws))]
+    if code == 15:
+        return [("version",)]
     raise ValueError(op)
 
 
@@ -177,6 +187,11 @@ def grid(ctx):
             must.append((c, (2, b"k", b"v", x, 0, False, None)))
         for d in DELTAS:
             must += [(c, (11, b"k", d, False)), (c, (12, b"k", d, True)), (c, (14, d, None))]
+    # commands that take no key: whatever the key prefix, their words go out as given
+    for c in cfgs:
+        if c["enc"] == 0 and c["serde"] == 0 and c["unicode"] is False:
+            must += [(c, (18, ())), (c, (18, ("slabs",))), (c, (18, ("cachedump", "1", "1"))), (c, (18, (b"items",))), (c, (18, ("a b",))), (c, (23, 64)),
+                     (c, (23, "64")), (c, (15,))]
     for _ in range(300 if ctx.quick else 3000):
         c = rng.choice(cfgs)
         k = rng.choice(KEYS) if rng.random() < 0.5 else bytes(rng.randrange(256) for _ in range(rng.randrange(0, 6)))
@@ -209,7 +224,7 @@ def run_one(stack, c, op):
     srv = Server()
     ops = [op]
     if stack == "Client":
-        r = cs.run_impl(c, ops, [], [], (), None, srv.feed)
+        r = cs.run_impl(c, ops, [], [], (), None, srv.feed, apply=(lambda cl, o: cl.stats(*o[1])) if op[0] == 18 else None)
         res, world = r[0][0], r[6]
     else:
         from harness.props.C16 import run_pooled_peer
@@ -385,8 +400,8 @@ def search(ctx):
     n = 0
     for c, op in grid(ctx):
         for stack in ("Client", "PooledClient"):
-            if stack == "PooledClient" and op[0] not in (1, 7, 8, 10):
-                continue            # the pooled wrapper matters for the multi-key clause
+            if stack == "PooledClient" and op[0] not in (1, 7, 8, 10, 18, 15):
+                continue            # the pooled wrapper matters for the multi-key clause (and hands on the words of stats)
             n += 1
             why = judge(stack, c, op)
             if why:
